@@ -232,7 +232,7 @@ def check(pid, tier):
     if getattr(mod, "USES_REFERENCE_MODELS", False):
         from . import selftest
 
-        fails = selftest.run()
+        fails = selftest.run(include_library=False)
         selfcheck = {"cases": selftest.count(), "failures": len(fails)}
         if fails:
             inconclusive.append("oracle self-check failed: " + "; ".join(fails[:3]))
